@@ -11,7 +11,7 @@ import "deps.dev/util/resolve/pypi/internal"
 var c16Vars = []string{"python_version", "python_full_version", "implementation_version", "os_name", "sys_platform",
 	"platform_machine", "platform_system", "implementation_name", "platform_python_implementation"}
 var c16Ops = []string{"<=", "<", "!=", "==", ">=", ">", "~=", "in", "not in"}
-var c16Lits = []string{"d", "d.d", "d.d.d", "lll", "posix", "linux", "3.9", "3.9.6", "l"}
+var c16Lits = []string{"d", "d.d", "d.d.d", "lll", "posix", "linux", "3.9", "3.9.6", "l", "vd.d", "Vd.d.d", "v3.9"}
 var c16D = [...]string{"0", "1", "2", "3"}
 
 func c16Lit(t, tag string) string {
@@ -42,6 +42,9 @@ func c16Release(s string) ([3]int, int) {
 			n++
 			continue
 		}
+		if s[i] == 'v' || s[i] == 'V' { // PEP 440 admits a leading v
+			continue
+		}
 		r[n] = r[n]*10 + int(s[i]-'0')
 	}
 	return r, n + 1
@@ -56,7 +59,7 @@ func c16CmpRelease(a, b [3]int) int {
 }
 
 func c16IsVersionVar(i int) bool { return i <= 2 }
-func c16IsReleaseLit(i int) bool { return i <= 2 || i == 6 || i == 7 }
+func c16IsReleaseLit(i int) bool { return i <= 2 || i == 6 || i == 7 || i >= 9 }
 
 // c16Ref: packaging's answer for `VAR OP LIT` (var on the left); ok=false
 // means packaging rejects the comparison.
@@ -136,8 +139,49 @@ func c16Atom(k int) (text string, ref bool, ok bool) {
 		name := c16Lit("l", "e"+tag)
 		return "extra" + c16Wsp("w") + "==" + c16Wsp("w") + "'" + name + "'", name == "x", true
 	}
+	if vParam("x"+tag) == 2 { // 'l' == extra: the variable on the right
+		name := c16Lit("l", "e"+tag)
+		return "'" + name + "'" + c16Wsp("w") + "==" + c16Wsp("w") + "extra", name == "x", true
+	}
 	vi, oi, li := vParam("v"+tag), vParam("o"+tag), vParam("l"+tag)
 	lit := c16Lit(c16Lits[li], "lit"+tag)
+	if vParam("rev"+tag) == 1 {
+		// literal OP variable, for the combinations packaging evaluates the same way in every release:
+		// ordering between two versions, equality and containment between strings
+		val := internal.Markers[c16Vars[vi]]
+		op := c16Ops[oi]
+		text = "'" + lit + "' " + op + " " + c16Vars[vi]
+		if c16IsVersionVar(vi) && c16IsReleaseLit(li) {
+			l, _ := c16Release(lit)
+			r, _ := c16Release(val)
+			c := c16CmpRelease(l, r)
+			switch op {
+			case "<=":
+				return text, c <= 0, true
+			case "<":
+				return text, c < 0, true
+			case "!=":
+				return text, c != 0, true
+			case "==":
+				return text, c == 0, true
+			case ">=":
+				return text, c >= 0, true
+			case ">":
+				return text, c > 0, true
+			}
+		}
+		switch op {
+		case "==":
+			return text, lit == val, true
+		case "!=":
+			return text, lit != val, true
+		case "in":
+			return text, c16Contains(val, lit), true
+		case "not in":
+			return text, !c16Contains(val, lit), true
+		}
+		vAssume(false) // not generated
+	}
 	ref, ok = c16Ref(vi, oi, li, lit)
 	q := "'"
 	if vParam("q") == 1 {
